@@ -235,6 +235,33 @@ func genBatchScenario(r *hx.Rng, c *hx.Ctx) (*bscenario, error) {
 			}
 		}
 	}
+	// ALTER RETENTION POLICY … SHARD DURATION: later groups are cut with another duration and may
+	// overlap the older ones (the real CreateShardGroup decides)
+	if r.Chance(25) && len(rpi.ShardGroups) > 0 {
+		old := sc.dur
+		rpi.ShardGroupDuration = []time.Duration{30 * time.Minute, 2 * time.Hour, 6 * time.Hour, 25 * time.Hour}[r.Intn(4)]
+		last := rpi.ShardGroups[len(rpi.ShardGroups)-1]
+		for k := 0; k < 1+r.Intn(2); k++ {
+			t := ns(last.EndTime) + int64(k)*int64(rpi.ShardGroupDuration) + int64(r.Intn(int(old)))
+			if r.Chance(30) {
+				t = ns(last.StartTime) - 1 - int64(r.Intn(int(old)))
+			}
+			if t <= 0 {
+				continue
+			}
+			_ = data.CreateShardGroup(dbName, rpName, time.Unix(0, t), util.Hot, config.TSSTORE, 0)
+		}
+		c.Count("bmeta:shard-duration-altered")
+		for a := range rpi.ShardGroups {
+			for b := a + 1; b < len(rpi.ShardGroups); b++ {
+				ga, gb := &rpi.ShardGroups[a], &rpi.ShardGroups[b]
+				if ga.StartTime.Before(gb.EndTime) && gb.StartTime.Before(ga.EndTime) {
+					sc.special = true
+					c.Count("bmeta:altered-duration-overlap")
+				}
+			}
+		}
+	}
 	for j := range rpi.ShardGroups {
 		g := &rpi.ShardGroups[j]
 		if r.Chance(6) {
